@@ -48,6 +48,8 @@ class _Tripwire:
     def __enter__(self):
         import importlib
         del _TRIP[:]
+        del world.ASYNCIO_TRIPS[:]
+        world.ASYNCIO_ARMED[0] = True
         self.saved = []
         for modname, name in self.NAMES:
             mod = importlib.import_module(modname)
@@ -63,6 +65,8 @@ class _Tripwire:
     def __exit__(self, *exc):
         for mod, name, orig in self.saved:
             setattr(mod, name, orig)
+        world.ASYNCIO_ARMED[0] = False
+        _TRIP.extend("early-bound:" + n for n in world.ASYNCIO_TRIPS)   # names the library bound at import time
         return False
 
 
@@ -146,6 +150,29 @@ def _observe_tool(case):
                            "same_result": r["out"] == base["out"] and tools.yields(r["vis"]) == tools.yields(base["vis"])})
     finally:
         world.RESILIENT[0] = False
+    # third pass: the cancellation PROPAGATES (non-resilient awaitables) and the clean-up it triggers suspends in the
+    # user's own aclose(): those suspensions, too, must reach the driver as the user's tokens, get the driver's replies,
+    # and the operation must end with the very exception that was thrown in
+    if any(s["kind"] == "aobj" for s in case["srcs"]) and not case.get("allsync"):
+        c2 = copy.deepcopy(case)
+        for s in c2["srcs"]:
+            if s["kind"] == "aobj":
+                s["close_susp"] = 1
+        for j in range(min(n, 6)):
+            mark = len(world.SUSP_LOG)
+            exc = Interrupt(750 + j)
+
+            def reply2(i, tok, j=j, exc=exc, st={"k": 0}):
+                st["k"] += 1
+                if st["k"] == j + 1:
+                    return ("throw", exc)
+                return ("send", ("r", tok))
+            r = run_async(c2, reply2)
+            after = _check_log(r["tokens"] + r.get("owner_close_tokens", []), mark)
+            for tag, detail in after:
+                issues.append(("after-propagating-cancel:" + tag, dict(detail, thrown_at=j)))
+            if r["out"] != ["raised", ["user", 750 + j]] and r["out"][0] not in ("stopped", "closed"):
+                issues.append(("propagating-cancel-replaced", {"thrown_at": j, "out": r["out"]}))
     del world.SUSP_LOG[:]
     return {"tokens": base["tokens"], "log_issues": issues, "throws": throws,
             "async": {"out": base["out"], "vis": base["vis"]}}
@@ -570,8 +597,10 @@ NOLOOP = r"""
 import sys
 sys.path.insert(0, %r)
 import asyncio
+class LoopTouched(BaseException):
+    pass
 def boom(*a, **k):
-    raise RuntimeError("asyncio loop touched")
+    raise LoopTouched("asyncio loop touched")   # not an Exception: an `except RuntimeError` fallback cannot hide it
 asyncio.get_running_loop = asyncio.get_event_loop = asyncio.new_event_loop = boom
 asyncio.events.get_running_loop = asyncio.events.get_event_loop = asyncio.events.new_event_loop = boom
 asyncio.events._get_running_loop = boom
@@ -614,7 +643,7 @@ def observe(case):
             obs = _observe_conc(case)
         else:
             obs = _observe_tool(case)
-        return _tripped(obs)
+    return _tripped(obs)
 
 
 def model_request(case):
